@@ -50,18 +50,13 @@ def hooks_present():
     return [h for h in HOOK_NAMES if ('verifYield("%s"' % h) in src]
 
 
-def classify(op, impl, model):
-    """Turn a model/implementation disagreement into a statement about the property where the
-    implementation output alone violates it (property-level oracle on the implementation side)."""
-    return None
-
-
 def oracle_ctl(ctx, ops, impl):
     """Property-level oracle evaluated directly on what the real controller wrote (independent of
     the model's outputs): every written reply carries the asking client's id and question; every
     cache entry answers its key; one upstream resolution per flight."""
     clients = []
     n_replies = 0
+    pending_respell = None
     for op, im in zip(ops, impl):
         t = op.split()
         if t[:2] == ["C", "reset"]:
@@ -70,6 +65,14 @@ def oracle_ctl(ctx, ops, impl):
                 f = tok.split(":")
                 clients.append({"id": int(f[0]), "n": int(f[1]), "sp": int(f[2]), "qt": int(f[3]), "scope": int(f[4])})
             continue
+        if t[:2] == ["C", "respell"]:
+            pending_respell = int(t[5])
+            continue
+        if t[:2] == ["C", "arrive"] and pending_respell is not None:
+            if clients[int(t[2])]["sp"] != pending_respell:
+                ctx.report(f"cache entry re-packed with spelling {pending_respell}, which is not the spelling of the request at hand",
+                           {"op": op, "impl": im, "clients": clients})
+            pending_respell = None
         if t[:2] == ["C", "errreply"]:
             ctx.report(f"error reply built by the controller does not carry the client's id/question: want {t[3]} got {im}",
                        {"op": op, "impl": im})
